@@ -1,6 +1,7 @@
 import GoPlugin.Props.C11
 import GoPlugin.Props.StdioConn
 import GoPlugin.Generated.Facts
+import GoPlugin.Props.Hygiene
 /-
 C11 instantiated at the facts extracted from the current source (tie T-A):
 the obligation `facts_good` is re-checked on every run.
@@ -72,5 +73,8 @@ gone (the repaired defect D13) -/
 theorem holds_nothing_lost_across_connections (es : List StdioConn.Ev) (s : StdioConn.State)
     (hr : StdioConn.runFrom Facts.stdioConn StdioConn.init es = some s) : s.lost = [] ∧ s.taken ++ s.pending = s.written :=
   Props.StdioConn.nothing_lost_across_connections _ stdio_conn_good es s hr
+
+theorem holds_slow_writer_loses_nothing (deadlineMs stallMs : Nat) : Hygiene.chunkDelivered Facts.hygiene deadlineMs stallMs = true :=
+  Props.Hygiene.slow_writer_loses_nothing _ (by decide) deadlineMs stallMs
 
 end GoPlugin.Instance.C11
